@@ -170,3 +170,32 @@ Proof.
     + rewrite <- He3. apply continue_final; try assumption. lia.
 Qed.
 End VerifyProofs.
+
+(* ------------------------------------------------------------------ witness inputs *)
+Section WitnessSessions.
+Variable low_s : bytes -> bool.
+Variable tap_tweak_ok : bytes -> bytes -> bytes -> bool -> bool.
+Variable sha256 : bytes -> bytes.
+Variable c : cfg.
+
+(* a session of a segwit / taproot input never enters the pay-to-script-hash phase, whatever its script looks like *)
+Lemma witness_session_not_p2sh : forall script stack succ ed t, (c_sigver c =? SV_BASE) = false ->
+  i_p2sh (setup_env c script stack succ ed t) = false.
+Proof. intros. cbn [setup_env i_p2sh]. rewrite H. rewrite Bool.andb_false_r. reflexivity. Qed.
+
+(* hence the session of a witness script (P2WSH script, the implied P2PKH script of P2WPKH, the key-path check) is one evaluation of that
+   script on the given stack, followed by the balanced-nesting test *)
+Theorem witness_script_session : forall script stack ed f,
+  (c_sigver c =? SV_BASE) = false -> script <> [] -> script_too_big (c_sigver c) script = false ->
+  enough low_s c f (setup_env c script stack [] ed None) ->
+  ended (Session.dbg_continue low_s tap_tweak_ok sha256 f c (setup_env c script stack [] ed None))
+        (match eval_ref low_s c (i_e (setup_env c script stack [] ed None)) script with
+         | (e1, SOk) => finish e1 | (e1, st) => failed_verdict e1 st end).
+Proof.
+  intros script stack ed f Hsv Hne Hbig Hf.
+  pose proof (session_is_validation low_s tap_tweak_ok sha256 c (setup_env c script stack [] ed None) f eq_refl
+                (witness_session_not_p2sh script stack [] ed None Hsv)) as H.
+  assert (Hd: i_done (setup_env c script stack [] ed None) = false) by (cbn; destruct script; [contradiction|reflexivity]).
+  specialize (H Hd eq_refl Hf). unfold verify_ref in H. cbn [i_succ setup_env] in H. exact H.
+Qed.
+End WitnessSessions.
